@@ -52,6 +52,9 @@ def close(x, y, rel=1e-9, ab=1e-9):
 # implementation interpreter
 
 
+_bearing_calls = [0]
+
+
 def impl(line):
     from geostructures.calc import (bearing_degrees, haversine_distance_meters, inverse_haversine_degrees,
                                     inverse_haversine_radians, rotate_coordinates)
@@ -68,7 +71,13 @@ def impl(line):
         return enc(haversine_distance_meters(C(v[0], v[1]), C(v[2], v[3])),
                    haversine_distance_meters(C(v[4], v[1]), C(v[5], v[3])))
     if op == 'bearing':
-        return enc(bearing_degrees(C(v[0], v[1]), C(v[2], v[3])))
+        p, q = C(v[0], v[1]), C(v[2], v[3])
+        # calls with an explicit `precision` must not leak into later default calls (seeded change C07-n3: the default
+        # lived in a module-level dict that the function updated in place)
+        _bearing_calls[0] += 1
+        if _bearing_calls[0] % 7 == 3:
+            bearing_degrees(p, q, precision=_bearing_calls[0] % 3)
+        return enc(bearing_degrees(p, q))
     if op == 'dest':
         r = inverse_haversine_radians(C(v[0], v[1]), v[2], v[3])
         return enc(r.longitude, r.latitude)
@@ -81,7 +90,13 @@ def impl(line):
     if op == 'rot':
         o = C(v[0], v[1])
         pts = [C(v[i], v[i + 1]) for i in range(3, len(v), 2)]
+        for c in pts:
+            c.xyz                                   # per-coordinate caches are warm before the rotation …
         out = rotate_coordinates(pts, o, v[2])
+        for c in out:                               # … and must not travel with the rotated coordinates (C07-n2)
+            fresh = C(c.longitude, c.latitude)
+            if list(c.xyz) != list(fresh.xyz):
+                raise RuntimeError('a rotated coordinate carries a stale unit vector')
         return enc(*[x for c in out for x in (c.longitude, c.latitude)])
     if op == 'rot2':
         o = C(v[0], v[1])
